@@ -112,7 +112,8 @@ def analyse(prog, R, b, refills):
     if not (rs and all(q[0] == 'call' and is_buffer_call(prog, q[1].callee) for q in rs)):
         R.anchor_missing('SCAN-1', '%s: the split is over the reader buffer' % b.path)
         return
-    ev = Sym(prog, b, alters_buffer=[k.split('::')[-1] for k in refills])
+    # (small single-path helpers are evaluated in place: `shift_buf(reader, n)` = consume(n) + make_room())
+    ev = Sym(prog, b, alters_buffer=[k.split('::')[-1] for k in refills], inline=True)
     init = Path()
     init.env[1] = Aff.sym(('self',))
     # entry values: from the outer header to the first arrival at the inner header
@@ -167,8 +168,12 @@ def analyse(prog, R, b, refills):
               'line reported at a hit = %r (required: lines counted before + 1)' % (t.fields[0],))
         R.add('SCAN-2', b, 'hit-offset-is-start-of-current-piece', t.fields[1] == Aff.sym(('H', v_off)), where,
               'offset reported at a hit = %r (required: the offset accumulated over the previous pieces)' % (t.fields[1],))
-        R.add('SCAN-2', b, 'hit-byte-is-first-byte-of-current-piece', t.fields[2] == Aff.sym(('idx', cur, repr(Aff.const(0)))), where,
-              'byte reported at a hit = %r (required: piece[0])' % (t.fields[2],))
+        okb = t.fields[2] == Aff.sym(('idx', cur, repr(Aff.const(0))))
+        # obtained by an accessor (`trim_cr(line).first()`, `line.get(0)`): which byte that is depends on the accessor chain - not judged
+        via_call = (not okb) and isinstance(t.fields[2], Aff) and any(isinstance(sy, tuple) and (sy[0] == 'call' or (sy[0] == 'f' and isinstance(sy[1], tuple) and sy[1][:1] == ('call',)))
+                                                                       for sy in t.fields[2].syms())
+        R.add('SCAN-2', b, 'hit-byte-is-first-byte-of-current-piece', okb, where,
+              'byte reported at a hit = %r (required: piece[0])' % (t.fields[2],), undecided=via_call)
     # ---- closed forms at exhaustion
     SUM, K, LAST = Aff.sym(('SUMLEN',)), Aff.sym(('K',)), ('LENLAST',)
     carried = set()
